@@ -508,9 +508,186 @@ def widened_products_rule(ctx, prog, rule):
            "in 32 bits", not hits, {"sites": hits[:4]})
 
 
+def earliest_contract(ctx, prog):
+    """T3e: find_earliest_deadline evaluated exactly (loops unrolled, concrete clock = 4) on every pair of sources, each being: absent
+    (process NULL), without a deadline, expired (deadline 2), due soon (7) or due later (9) - with the source's streams open or all
+    closed, and its interests naming one stream or all.  The index returned is compared with what the property asks: an expired
+    deadline wins (it must be reported now and on every later poll, whatever else the source still has open); otherwise the
+    smallest remaining time among all sources given."""
+    F = prog.fn("find_earliest_deadline")
+    INF = prog.const("REPROC_INFINITE")
+    OUT = prog.const("REPROC_EVENT_OUT")
+    ALL = OUT | prog.const("REPROC_EVENT_IN") | prog.const("REPROC_EVENT_ERR") | prog.const("REPROC_EVENT_EXIT")
+    NOW = 4
+    kinds = {"absent": None, "no deadline": INF, "expired": 2, "due soon": 7, "due later": 9}
+
+    def o_now(I, fn, n, args, st):
+        return [(st, fs(NOW))]
+    p = {x["name"]: ("v", F.gdid(x["did"])) for x in F.params}
+    ARR = ("g", "sources#")
+    n_ok = 0
+    I = new_interp(prog, overrides={"now": o_now})
+    I.widen = False
+    for need in (NOW, 2, 7, 9, 3, 5):
+        if need not in I.Kset:
+            raise AnalysisBroken("C08.T3e: %d is not a tracked constant" % need)
+    for ka in kinds:
+        for kb in kinds:
+            for streams in ("open", "closed"):
+                for ints in (OUT, ALL):
+                    st = State()
+                    st.mon["nofail"] = True
+                    st.mem[p["sources"]] = fs(("addr", ("i", ARR, 0)))
+                    st.mem[p["num_sources"]] = fs(2)
+                    for k, kind in enumerate((ka, kb)):
+                        el = ("i", ARR, k)
+                        st.mem[("f", el, "interests")] = fs(I.abs_int(ints))
+                        st.mem[("f", el, "events")] = fs(0)
+                        if kinds[kind] is None:
+                            st.mem[("f", el, "process")] = fs("NULL")
+                            continue
+                        tok = ("mem", "process#%d" % k, 0)
+                        obj = ("heap", tok)
+                        st.mem[("f", el, "process")] = fs(tok)
+                        st.mem[("f", obj, "deadline")] = fs(kinds[kind])
+                        st.mem[("f", obj, "status")] = fs(prog.const("STATUS_IN_PROGRESS"))
+                        st.mem[("f", obj, "handle")] = fs(("pid", "p%d" % k, 0))
+                        for s_ in ("in", "out", "err", "exit"):
+                            st.mem[("f", ("f", obj, "pipe"), s_)] = fs(-1) if streams == "closed" else fs(("fd", "p%d.%s" % (k, s_), 0, 0))
+                    res = I.run(F, [st])
+                    rem = [(kinds[k] - NOW) if kinds[k] not in (None, INF) else None for k in (ka, kb)]
+                    expired = [i for i, r in enumerate(rem) if r is not None and r <= 0]
+                    due = [(r, i) for i, r in enumerate(rem) if r is not None and r > 0]
+                    if expired:
+                        want = set(expired)
+                    elif due:
+                        m = min(r for r, i in due)
+                        want = {i for r, i in due if r == m}
+                    else:
+                        want = {0, 1}
+                    got = set()
+                    for s2, rv in res.exits:
+                        got |= set(rv)
+                    ok = bool(got) and got <= want
+                    n_ok += 1
+                    ctx.ob("C08.T3e", "find_earliest_deadline [source 0 %s, source 1 %s, streams %s, interests %s]" % (ka, kb, streams, "out" if ints == OUT else "all"),
+                           "the source selected is one whose deadline has expired if there is any, otherwise the one with the least time "
+                           "left among all sources that have a deadline - whether or not the source still has a stream to wait on", ok,
+                           {"returns": show(frozenset(got))[:40], "expected": sorted(want)}, nontrivial=True)
+    ctx.stats("E-ABS", I.stats)
+    ctx.floor("C08.T3e", 100)
+
+
+def sentinel_collision_rule(ctx, prog):
+    """T1s: a variable that is tested for equality with a sentinel (== REPROC_INFINITE, == REPROC_DEADLINE) may receive computed values
+    (a difference of two times, a sum) only if the computation cannot produce the sentinel's number: "deadline - now" is -1 one
+    millisecond after the deadline, and would be taken for "no deadline".  The flow from arithmetic operators to tested variables is
+    followed through local definitions, conditional expressions, returned values and arguments; each operator found is then evaluated
+    by the abstract interpreter in its own function (relational facts such as now < deadline included)."""
+    sent = {"REPROC_INFINITE": prog.const("REPROC_INFINITE"), "REPROC_DEADLINE": prog.const("REPROC_DEADLINE")}
+    funcs = {F.name: F for F in prog.funcs_all if F.file.endswith(("reproc.c", "options.c"))}
+    ARITH = ("+", "-", "*", "/", "%", "<<", ">>")
+    found = {}          # (fname, node id) -> {"sent": set of sentinel names, "via": str}
+    tested = []
+
+    def defs_of(F, did):
+        out = []
+        for n in F.nodes.values():
+            if n["k"] == "VarDecl" and n.get("did") == did and n.get("c"):
+                out.append(n["c"][0])
+            elif n["k"] == "BinaryOperator" and n["op"] == "=" and strip(n["c"][0])["k"] == "DeclRefExpr" and strip(n["c"][0]).get("did") == did:
+                out.append(n["c"][1])
+            elif n["k"] == "CompoundAssignOperator" and strip(n["c"][0])["k"] == "DeclRefExpr" and strip(n["c"][0]).get("did") == did:
+                out.append(n)
+            elif n["k"] == "UnaryOperator" and n.get("op") in ("++", "--") and strip(n["c"][0])["k"] == "DeclRefExpr" and strip(n["c"][0]).get("did") == did:
+                out.append(n)
+        return out
+
+    def follow(F, e, nm, via, seen, depth):
+        e = strip(e)
+        key = (F.name, e["id"], nm)
+        if key in seen or depth > 6:
+            return
+        seen.add(key)
+        k = e["k"]
+        if k == "ConditionalOperator":
+            follow(F, e["c"][1], nm, via, seen, depth)
+            follow(F, e["c"][2], nm, via, seen, depth)
+        elif (k == "BinaryOperator" and e["op"] in ARITH) or k == "CompoundAssignOperator" or (k == "UnaryOperator" and e.get("op") in ("++", "--", "-")):
+            if k == "UnaryOperator" and e.get("op") == "-":
+                return      # negation of a code, not time arithmetic
+            d = found.setdefault((F.name, e["id"]), {"sent": set(), "via": via, "expr": expr_str(e)[:60], "line": e["l"][0]})
+            d["sent"].add(nm)
+        elif k == "BinaryOperator" and e["op"] == ",":
+            follow(F, e["c"][1], nm, via, seen, depth)
+        elif k == "DeclRefExpr" and e.get("dk") == "local":
+            for d in defs_of(F, e.get("did")):
+                follow(F, d, nm, via, seen, depth)
+        elif k == "DeclRefExpr" and e.get("dk") == "param":
+            idx = F.param_index(e["name"])
+            for d in defs_of(F, e.get("did")):
+                follow(F, d, nm, via, seen, depth)
+            for G in funcs.values():
+                for c in G.calls(F.name):
+                    if idx is not None and idx + 1 < len(c["c"]):
+                        follow(G, c["c"][idx + 1], nm, via, seen, depth + 1)
+        elif k in ("CallExpr",) and e.get("callee") in funcs:
+            G = funcs[e["callee"]]
+            for n in G.nodes.values():
+                if n["k"] == "ReturnStmt" and n.get("c"):
+                    follow(G, n["c"][0], nm, via, seen, depth + 1)
+
+    for F in funcs.values():
+        for n in F.nodes.values():
+            if n["k"] == "BinaryOperator" and n["op"] in ("==", "!="):
+                a, b = n["c"]
+                for x, y in ((a, b), (b, a)):
+                    ys = strip(y)
+                    if ys["k"] == "DeclRefExpr" and ys.get("name") in sent:
+                        xs = strip(x)
+                        if xs["k"] == "DeclRefExpr" and xs.get("dk") in ("local", "param"):
+                            tested.append("%s: %s" % (F.name, expr_str(n)[:50]))
+                            follow(F, xs, ys["name"], "%s: %s" % (F.name, expr_str(n)[:50]), set(), 0)
+    if len(tested) < 4:
+        raise AnalysisBroken("C08.T1s: only %d sentinel tests of local variables found (%s)" % (len(tested), tested))
+    ctx.extra["sentinel_tests"] = sorted(set(tested))
+    # evaluate every operator found, in its own function with unconstrained inputs
+    results = {}
+
+    def hook(I, fn, n, op, val, st):
+        if (fn.name, n["id"]) in found:
+            results.setdefault((fn.name, n["id"]), set()).update(val)
+
+    def o_now(I, fn, n, args, st):
+        return [(st, I.TOP_INT)]
+    for fname in sorted({k[0] for k in found}):
+        I = new_interp(prog, overrides={"now": o_now})
+        I.hooks_arith.append(hook)
+        Fh = prog.fn(fname)
+        if Fh.params and Fh.params[0]["name"] == "process" and fname.startswith("reproc_"):
+            entries = A.entry_states(prog, I, Fh, ("RUN",), combos="min")
+        else:
+            st = State()
+            st.mon["nofail"] = True
+            entries = [st]
+        I.run(Fh, entries)
+        ctx.stats("E-ABS", I.stats)
+    for (fname, nid), d in sorted(found.items(), key=lambda kv: (kv[0][0], kv[1]["line"])):
+        vals = results.get((fname, nid))
+        if vals is None:
+            raise AnalysisBroken("C08.T1s: %s: %s was found in the source but never evaluated" % (fname, d["expr"]))
+        clash = sorted(nm for nm in d["sent"] if any(atom_interval(a)[0] <= sent[nm] <= atom_interval(a)[1] for a in vals if not isinstance(a, tuple) and a != "PTR" and a != "NULL"))
+        ctx.ob("C08.T1s", "%s: %s (line %d)" % (fname, d["expr"], d["line"]), "a computed value that reaches a variable tested for equality with "
+               "a sentinel cannot be that sentinel's number (tested at %s)" % d["via"], not clash,
+               {"may_equal": clash, "value": show(frozenset(vals))[:80]}, nontrivial=True)
+    ctx.floor("C08.T1s", 1, "remaining = deadline - n in expiry")
+
+
 def check(ctx):
     prog = ctx.prog("posix-mt")
     expiry_contract(ctx, prog)
+    sentinel_collision_rule(ctx, prog)
+    earliest_contract(ctx, prog)
     single_poll_rule(ctx, prog)
     sentinel_rule(ctx, prog)
     poll_rules(ctx, prog)
